@@ -211,6 +211,17 @@ def run(ctx):
     # framing of what the Builder emitted: word count = 1 + result type + result id + the operands' words (one, two, string)
     import c04
     c04.assemble_index(ctx, q, S10)
+    # what the loader reads back for parameterised operands (memory access, image operands, execution modes, decorations): the
+    # parser delivers exactly the grammar's parameter kinds, so a built operand comes back as the same operand (C03 / C17 legs)
+    import c03
+    rp03 = Replay()
+    c03.mask_parameter_bits(ctx, S10, q, rp03)
+    c03.enum_parameter_values(ctx, S10, q, rp03)
+    # a type request answers with an earlier declaration only when that declaration carries the same arguments (C13's leg on
+    # Instruction::is_type_identical: operand lists of every length pair)
+    import c13
+    c13.type_identity(ctx, q, mf, ms, registry, rp03, 3 if ctx.tier == "quick" else 5)
+    rp03.close()
     ctx.extra["states"] = checked
     ctx.extra["transitions"] = checked
     ctx.extra["native_calls"] = native
